@@ -59,6 +59,10 @@ func helper2(depth int) {
 	hook.Fault("in-helper2")
 }
 
+func showArgs(tag string, b boom, a [3]int, s []int) {
+	hook.Ev(tag, b.Code, b.Msg, a[0], a[1], a[2], len(s), s[0])
+}
+
 // a function with its own deferred call that returns normally
 func withInnerDefer(depth int) (n int) {
 	defer func() {
@@ -86,7 +90,25 @@ func node(depth int) (res int, err error) {
 	hook.Fault("enter")
 	nd := hook.Choose(4)
 	for i := 0; i < nd; i++ {
-		switch hook.Choose(12) {
+		switch hook.Choose(14) {
+		case 12:
+			// arguments of a deferred call are evaluated by the defer statement: later changes
+			// of a struct or array variable must not be seen (a slice shares its elements)
+			b := boom{depth, "arg"}
+			a := [3]int{depth, 1, 2}
+			sl := []int{depth, 5}
+			defer showArgs("d-struct-args", b, a, sl)
+			b.Code, b.Msg = 900+depth, "changed"
+			a[1] = 77
+			sl[0] = 55
+		case 13:
+			// the receiver of a deferred method call is evaluated by the defer statement too
+			t := T{depth}
+			pt := &T{depth * 2}
+			defer t.Val("recv-val")
+			defer pt.Note("recv-ptr")
+			t.N = 3000 + depth
+			pt.N = 4000 + depth
 		case 10:
 			// recover only after another function ran (and finished) its own deferred call
 			defer func() {
